@@ -189,6 +189,53 @@ def lookups(case, note):
 
 
 # ---------------------------------------------------------------------------
+# look-ups through the command line (ids 0, small and large; hidden / non-serviceable PELs)
+# ---------------------------------------------------------------------------
+
+@st.composite
+def cli_lookup_case(draw):
+    ident = draw(st.sampled_from([0, 0, 1, 4, 0x0FFFFFFF, 0x50000001, 0xFFFFFFFF]))
+    sev = draw(st.one_of(st.sampled_from([0x00, 0x10, 0x20, 0x40, 0x51]), st.integers(0, 255)))
+    flags = draw(st.integers(0, 0xFFFF))
+    return {'kind': draw(st.sampled_from(['bmc', 'plid', 'id', 'src'])), 'ident': ident, 'sev': sev, 'flags': flags,
+            'hex': draw(st.booleans())}
+
+
+@PROP.given('cli-lookups', lambda tier: cli_lookup_case(), quick=300, thorough=6000, shards_quick=8)
+def cli_lookups(case, note):
+    import json
+    d = tempfile.mkdtemp(prefix='c07l')
+    try:
+        v = case['ident']
+        pel = M.minimal_pel([M.default_src()], ph=M.default_ph(eid=v, plid=v, obmc=v),
+                            uh=M.default_uh(sev=case['sev'], flags=case['flags']))
+        with open(os.path.join(d, '1718273645091827_%08X' % v), 'wb') as fh:
+            fh.write(M.encode(pel))
+        argv = ['-p', d] + {'bmc': ['--bmc-id', str(v)], 'plid': ['--plid', '%08X' % v], 'id': ['-i', '%08X' % v],
+                            'src': ['--src', 'BD8D1234']}[case['kind']] + (['-x'] if case['hex'] else [])
+        r = cli.forked(argv)
+        shown = ('PEL Begin' in r.out) if case['hex'] else None
+        if not case['hex']:
+            try:
+                doc = json.loads(r.out)
+                shown = bool(doc)
+            except ValueError:
+                shown = False
+        if r.status != 0 or not shown:
+            raise Violation('C07.cli-lookup', 'peltool %s does not find the only PEL of the directory (id %d, severity '
+                            '0x%02X, flags 0x%04X: hidden=%s serviceable=%s): %s'
+                            % (' '.join(argv[2:]), v, case['sev'], case['flags'], ref_hidden(case['flags']),
+                               ref_serviceable(case['sev'], case['flags']), r.brief()),
+                            sig='C07.cli-lookup:%s' % case['kind'])
+        note.label('lookup=' + case['kind'])
+        if v == 0:
+            note.label('id=0')
+        note.nontrivial = ref_hidden(case['flags']) or not ref_serviceable(case['sev'], case['flags'])
+    finally:
+        shutil.rmtree(d, ignore_errors=True)
+
+
+# ---------------------------------------------------------------------------
 # command line -> selection
 # ---------------------------------------------------------------------------
 
